@@ -56,13 +56,23 @@ package message
 //@   requires b.outgoingBlocks != nil && block != nil
 //@   modifies b.blkSize, b.outgoingBlocks[*]
 //@   ensures b.blkSize == old(b.blkSize) + blockLen(block)
+//@ -- C03: one metadata entry is appended to this request's list, after what is there; nothing else changes
+//@ pred metaLen(b *Builder, r graphsync.RequestID) := ite(r in b.outgoingResponses, len(b.outgoingResponses[r]), 0)
 //@ func Builder.AddLink
-//@   lenient
-//@   safety off
+//@   requires b != nil && b.outgoingResponses != nil && link != nil && dyntype(link) == typetag("cidlink.Link")
 //@   modifies b.outgoingResponses[*], alloc
+//@   ensures requestID in b.outgoingResponses && len(b.outgoingResponses[requestID]) == old(metaLen(b, requestID)) + 1
+//@   ensures b.outgoingResponses[requestID][old(metaLen(b, requestID))].Link == cast(link, "cidlink.Link").Cid && b.outgoingResponses[requestID][old(metaLen(b, requestID))].Action == linkAction
+//@   ensures forall j int :: 0 <= j && j < old(metaLen(b, requestID)) ==> b.outgoingResponses[requestID][j] == old(b.outgoingResponses[requestID][j])
+//@   ensures forall r graphsync.RequestID :: r != requestID ==> (r in b.outgoingResponses) == old(r in b.outgoingResponses) && b.outgoingResponses[r] == old(b.outgoingResponses[r])
+//@ -- C03: the status recorded for the request is the last one given; the request will appear in the message even without links
 //@ func Builder.AddResponseCode
-//@   safety off
+//@   requires b != nil && b.completedResponses != nil && b.outgoingResponses != nil
 //@   modifies b.completedResponses[*], b.outgoingResponses[*]
+//@   ensures requestID in b.completedResponses && b.completedResponses[requestID] == status && requestID in b.outgoingResponses
+//@   ensures metaLen(b, requestID) == old(metaLen(b, requestID)) && (forall j int :: 0 <= j && j < metaLen(b, requestID) ==> b.outgoingResponses[requestID][j] == old(b.outgoingResponses[requestID][j]))
+//@   ensures forall r graphsync.RequestID :: r != requestID ==> (r in b.outgoingResponses) == old(r in b.outgoingResponses) && b.outgoingResponses[r] == old(b.outgoingResponses[r])
+//@        && (r in b.completedResponses) == old(r in b.completedResponses) && b.completedResponses[r] == old(b.completedResponses[r])
 //@ func Builder.AddExtensionData
 //@   safety off
 //@   modifies b.extensions[*], b.outgoingResponses[*]
